@@ -14,11 +14,15 @@ package kvstore
 //@     k != nil && k.tablesByCoefficient != nil &&
 //@     (forall i int {k.tables[i]} :: 0 <= i && i < len(k.tables) ==> k.tables[i] != nil && k.tables[i].inv() && k.tables[i].allocated == k.tableSize) &&
 //@     (forall i int, j int {k.tables[i], k.tables[j]} :: 0 <= i && i < j && j < len(k.tables) ==> table.sep(k.tables[i], k.tables[j])) &&
-//@     (forall h uint64, i int, j int {k.tables[i].has(h), k.tables[j].has(h)} :: 0 <= i && i < j && j < len(k.tables) ==> !(k.tables[i].has(h) && k.tables[j].has(h)))
+//@     (forall h uint64, i int, j int {k.tables[i].has(h), k.tables[j].has(h)} :: 0 <= i && i < j && j < len(k.tables) ==> !(k.tables[i].has(h) && k.tables[j].has(h))) &&
+//@     (forall i int {k.tables[i]} :: 0 <= i && i < len(k.tables) && k.tables[i].state == table.RecycledState ==> k.tables[i].offset == 0) &&
+//@     (forall i int, h uint64 {k.tables[i].has(h)} :: 0 <= i && i < len(k.tables) && k.tables[i].state == table.RecycledState ==> !k.tables[i].has(h)) &&
+//@     (len(k.tables) > 0 ==> k.tables[len(k.tables)-1].state != table.RecycledState)
 
 // Abstract view: presence of a key, and the table index holding it.
 //@ pure func (k *KVStore) has(h uint64) bool = exists i int {k.tables[i]} :: 0 <= i && i < len(k.tables) && k.tables[i].has(h)
 //@ pure func (k *KVStore) at(h uint64, i int) bool = 0 <= i && i < len(k.tables) && k.tables[i].has(h)
+//@ pure func (k *KVStore) owns(t *table.Table) bool = exists i int {k.tables[i]} :: 0 <= i && i < len(k.tables) && k.tables[i] == t
 
 //@ func (k *KVStore) Check(hkey uint64) bool
 //@   props C11
@@ -127,3 +131,91 @@ package kvstore
 //@                len(k.tables) == old(len(k.tables)) && (forall j int {k.tables[j]} :: 0 <= j && j < len(k.tables) ==> k.tables[j] == old(k.tables[j])) &&
 //@                (forall j int, h uint64 {k.tables[j].has(h)} :: 0 <= j && j < len(k.tables) ==> k.tables[j].has(h) == old(k.tables[j].has(h)) && (k.tables[j].has(h) ==> k.tables[j].off(h) == old(k.tables[j].off(h))))
 //@   loop 0 decreases i + 1
+
+// makeTable retires the active table and appends an empty one (a recycled table if there is one).
+//@ func (k *KVStore) makeTable() error
+//@   props C11 C20 C17
+//@   trusted
+//@   requires #inv_in: k.inv()
+//@   requires #size: k.tableSize <= 4611686018427387904
+//@   ensures  #ok: result == nil
+//@   ensures  #grown: len(k.tables) >= 1 && len(k.tables) >= old(len(k.tables))
+//@   ensures  #last_empty [C17]: k.tables[len(k.tables)-1].offset == 0 && forall h uint64 :: !k.tables[len(k.tables)-1].has(h)
+//@   ensures  #kept [C11]: forall t *table.Table :: old(k.owns(t)) ==> k.owns(t)
+//@   ensures  #no_new_keys [C11]: forall t *table.Table, h uint64 :: k.owns(t) && t.has(h) ==> old(k.owns(t)) && old(t.has(h))
+//@   ensures  #new_fresh [C18]: forall t *table.Table :: k.owns(t) ==> old(k.owns(t)) || (fresh(t) && fresh(t.memory))
+//@   ensures  #untouched [C11]: forall t *table.Table, h uint64 :: old(k.owns(t)) && old(t.has(h)) ==> t.has(h) && t.off(h) == old(t.off(h))
+//@   ensures  #inv_out: k.inv()
+//@   modifies k.tables, k.coefficient, map(k.tablesByCoefficient), elems(k.tables), every(k.tables[0].state), every(k.tables[0].coefficient)
+//@   loop 0 invariant #searching: 0 <= rangeindex + 1 && k.inv() && len(k.tables) == old(len(k.tables)) && len(k.tables) != 0 &&
+//@                (forall j int {k.tables[j]} :: 0 <= j && j < len(k.tables) ==> k.tables[j] == old(k.tables[j])) &&
+//@                (forall j int, h uint64 {k.tables[j].has(h)} :: 0 <= j && j < len(k.tables) ==> k.tables[j].has(h) == old(k.tables[j].has(h)) && k.tables[j].off(h) == old(k.tables[j].off(h)))
+
+// deleteStale removes hkey from every table except the last one.
+//@ func (k *KVStore) deleteStale(hkey uint64) error
+//@   props C11 C20
+//@   flag termination
+//@   requires #inv_weak: k != nil && k.tablesByCoefficient != nil &&
+//@                (forall i int {k.tables[i]} :: 0 <= i && i < len(k.tables) ==> k.tables[i] != nil && k.tables[i].inv() && k.tables[i].allocated == k.tableSize) &&
+//@                (forall i int, j int {k.tables[i], k.tables[j]} :: 0 <= i && i < j && j < len(k.tables) ==> table.sep(k.tables[i], k.tables[j]))
+//@   requires #uniq_others [C11]: forall h uint64, i int, j int {k.tables[i].has(h), k.tables[j].has(h)} :: h != hkey && 0 <= i && i < j && j < len(k.tables) ==> !(k.tables[i].has(h) && k.tables[j].has(h))
+//@   ensures  #ok: result == nil
+//@   ensures  #only_removes [C11]: forall h uint64, j int {k.tables[j].has(h)} :: 0 <= j && j < len(k.tables) && k.tables[j].has(h) ==> old(k.tables[j].has(h))
+//@   ensures  #stale_gone [C11]: forall j int {k.tables[j]} :: 0 <= j && j < len(k.tables) - 1 ==> !k.tables[j].has(hkey)
+//@   ensures  #others [C11]: forall h uint64, j int {k.tables[j].has(h)} :: 0 <= j && j < len(k.tables) && (h != hkey || j == len(k.tables) - 1) ==>
+//@                k.tables[j].has(h) == old(k.tables[j].has(h)) && (k.tables[j].has(h) ==> k.tables[j].off(h) == old(k.tables[j].off(h)))
+//@   ensures  #same_tables: len(k.tables) == old(len(k.tables)) && forall j int {k.tables[j]} :: 0 <= j && j < len(k.tables) ==> k.tables[j] == old(k.tables[j])
+//@   ensures  #uniq_others [C11]: forall h uint64, i int, j int {k.tables[i].has(h), k.tables[j].has(h)} :: h != hkey && 0 <= i && i < j && j < len(k.tables) ==> !(k.tables[i].has(h) && k.tables[j].has(h))
+//@   ensures  #uniq [C11]: forall h uint64, i int, j int {k.tables[i].has(h), k.tables[j].has(h)} :: 0 <= i && i < j && j < len(k.tables) ==> !(k.tables[i].has(h) && k.tables[j].has(h))
+//@   ensures  #tables_ok: (forall i int {k.tables[i]} :: 0 <= i && i < len(k.tables) ==> k.tables[i] != nil && k.tables[i].inv() && k.tables[i].allocated == k.tableSize)
+//@   ensures  #states: forall j int {k.tables[j]} :: 0 <= j && j < len(k.tables) ==> k.tables[j].state == old(k.tables[j].state) && k.tables[j].offset == old(k.tables[j].offset)
+//@   modifies every(k.tables[0].garbage), every(k.tables[0].inuse), every(map(k.tables[0].hkeys)), every(k.tables[0].offsetIndex.set)
+//@   loop 0 invariant #cleaned: -2 <= i && i <= len(k.tables) - 2 && len(k.tables) == old(len(k.tables)) &&
+//@                (forall j int {k.tables[j]} :: 0 <= j && j < len(k.tables) ==> k.tables[j] == old(k.tables[j]) && k.tables[j] != nil && k.tables[j].inv() && k.tables[j].allocated == k.tableSize &&
+//@                      k.tables[j].state == old(k.tables[j].state) && k.tables[j].offset == old(k.tables[j].offset)) &&
+//@                (forall j int {k.tables[j]} :: i < j && j < len(k.tables) - 1 ==> !k.tables[j].has(hkey)) &&
+//@                (forall h uint64, a int, b int {k.tables[a].has(h), k.tables[b].has(h)} :: h != hkey && 0 <= a && a < b && b < len(k.tables) ==> !(k.tables[a].has(h) && k.tables[b].has(h))) &&
+//@                (forall h uint64, j int {k.tables[j].has(h)} :: 0 <= j && j < len(k.tables) && h != hkey ==>
+//@                      k.tables[j].has(h) == old(k.tables[j].has(h)) && (k.tables[j].has(h) ==> k.tables[j].off(h) == old(k.tables[j].off(h)))) &&
+//@                (forall h uint64, j int {k.tables[j].has(h)} :: 0 <= j && j < len(k.tables) && (j == len(k.tables) - 1 || j <= i) ==>
+//@                      k.tables[j].has(h) == old(k.tables[j].has(h)) && (k.tables[j].has(h) ==> k.tables[j].off(h) == old(k.tables[j].off(h))))
+//@   loop 0 decreases i + 2
+
+// fits: an entry of n bytes fits the active table right now.
+//@ pure func (k *KVStore) fits(n int) bool = len(k.tables) >= 1 && n + k.tables[len(k.tables)-1].offset < k.tableSize
+
+//@ func (k *KVStore) Put(hkey uint64, value storage.Entry) error
+//@   props C11 C17 C20
+//@   flag termination
+//@   requires #inv_in: k.inv()
+//@   requires #entry: value != nil && len(value.value) < 4294967296
+//@   requires #separate [C18]: forall i int {k.tables[i]} :: 0 <= i && i < len(k.tables) ==> base(value.value) != base(k.tables[i].memory)
+//@   requires #size: k.tableSize <= 4611686018427387904
+//@   ensures  #too_large [C17]: (result == storage.ErrEntryTooLarge) == (29 + len(value.key) + len(value.value) >= k.tableSize)
+//@   ensures  #key_too_large [C17]: result == storage.ErrKeyTooLarge ==> len(value.key) >= 256
+//@   ensures  #err_kind [C17]: result == nil || result == storage.ErrEntryTooLarge || result == storage.ErrKeyTooLarge
+//@   ensures  #stored [C11 C17]: result == nil ==> len(k.tables) >= 1 && k.tables[len(k.tables)-1].has(hkey) &&
+//@                k.tables[len(k.tables)-1].keyOf(hkey) == value.key && k.tables[len(k.tables)-1].valOf(hkey) == old(bstr(value.value)) &&
+//@                k.tables[len(k.tables)-1].ttlOf(hkey) == value.ttl && k.tables[len(k.tables)-1].tsOf(hkey) == value.timestamp
+//@   ensures  #unique [C11]: result == nil ==> forall j int {k.tables[j]} :: 0 <= j && j < len(k.tables) - 1 ==> !k.tables[j].has(hkey)
+//@   ensures  #inv_out: k.inv()
+//@   loop 0 invariant #retry: k.inv() && len(k.tables) >= 1 && 29 + len(value.key) + len(value.value) < k.tableSize &&
+//@                (forall i int {k.tables[i]} :: 0 <= i && i < len(k.tables) ==> base(value.value) != base(k.tables[i].memory)) &&
+//@                bstr(value.value) == old(bstr(value.value))
+//@   loop 0 decreases ite(k.fits(29 + len(value.key) + len(value.value)), 0, 1)
+
+//@ func (k *KVStore) PutRaw(hkey uint64, value []byte) error
+//@   props C11 C04 C17 C20
+//@   flag termination
+//@   requires #inv_in: k.inv()
+//@   requires #wf [C16]: entry.wfAt(elems(value), off(value), len(value))
+//@   requires #separate [C18]: forall i int {k.tables[i]} :: 0 <= i && i < len(k.tables) ==> base(value) != base(k.tables[i].memory)
+//@   requires #size: k.tableSize <= 4611686018427387904
+//@   ensures  #too_large [C17]: (result == storage.ErrEntryTooLarge) == (len(value) >= k.tableSize)
+//@   ensures  #err_kind [C17]: result == nil || result == storage.ErrEntryTooLarge
+//@   ensures  #stored [C11 C04]: result == nil ==> len(k.tables) >= 1 && k.tables[len(k.tables)-1].has(hkey) && k.tables[len(k.tables)-1].size(hkey) == len(value)
+//@   ensures  #unique [C11]: result == nil ==> forall j int {k.tables[j]} :: 0 <= j && j < len(k.tables) - 1 ==> !k.tables[j].has(hkey)
+//@   ensures  #inv_out: k.inv()
+//@   loop 0 invariant #retry: k.inv() && len(k.tables) >= 1 && len(value) < k.tableSize && entry.wfAt(elems(value), off(value), len(value)) &&
+//@                (forall i int {k.tables[i]} :: 0 <= i && i < len(k.tables) ==> base(value) != base(k.tables[i].memory))
+//@   loop 0 decreases ite(k.fits(len(value)), 0, 1)
